@@ -46,7 +46,11 @@ class UnimodalPdf(DensityEstimator):
         # minimise based on the best guess
         opt_method = "Nelder-Mead"
         self.min_result = minimize(
-            fun=cost_func, x0=guesses[0], bounds=self.bounds, method=opt_method
+            fun=cost_func,
+            x0=guesses[0],
+            bounds=self.bounds,
+            method=opt_method,
+            options={"initial_simplex": self.initial_simplex(guesses[0])},
         )
         self.MAP = self.min_result.x
         self.mode = self.MAP[0]
@@ -59,6 +63,7 @@ class UnimodalPdf(DensityEstimator):
                 x0=self.MAP,
                 bounds=self.bounds,
                 method=opt_method,
+                options={"initial_simplex": self.initial_simplex(self.MAP)},
             )
             self.MAP = self.min_result.x
             self.mode = self.MAP[0]
@@ -70,6 +75,16 @@ class UnimodalPdf(DensityEstimator):
         x0, s0, v, f, k, q = self.MAP
         self.upr_limit = x0 + s0 * (4 * exp(f) + 1)
         self.lwr_limit = x0 - s0 * (4 * exp(-f) + 1)
+
+    def initial_simplex(self, start: ndarray) -> ndarray:
+        # size the simplex using the parameter bounds rather than the magnitude of
+        # the starting values, so the fit does not depend on the location of the data
+        simplex = zeros([len(start) + 1, len(start)])
+        simplex[:] = start
+        for i, (lwr, upr) in enumerate(self.bounds):
+            step = 0.05 * (upr - lwr)
+            simplex[i + 1, i] += step if start[i] + step <= upr else -step
+        return simplex
 
     def generate_guesses_and_bounds(self) -> tuple[list, list]:
         mu, sigma, skew = self.sample_moments(self.fitted_samples)
